@@ -59,7 +59,8 @@ manifest = {
     "checks": checks,
     "not_applicable": na,
     "notes": "All checks are static (ast only, /venv/bin/python 3.13). exit 0 = held (KNOWN-FINDING lines for listed findings), "
-             "exit 1 = VIOLATION lines, exit 2 = ANALYSIS-ERROR (analysis could not be carried out; never a pass). "
+             "exit 1 = VIOLATION lines, exit 2 = ANALYSIS-ERROR (analysis could not be carried out; never a pass; findings established "
+             "before an abort are still reported as violations, exit 1). Archived seeded changes with the checks that catch them: seeded/*/meta.json. "
              "Self-validation: /venv/bin/python selftest/run.py (mutants must be caught, variants silent).",
 }
 with open(os.path.join(HERE, "MANIFEST.json"), "w") as f:
